@@ -9,7 +9,7 @@ LEAF = {
     'gu': 'grad(u)', 'gv': 'grad(v)', 'gup': 'grad(u,parametric=True)', 'gh': 'grad(h)', 'g': 'g', 'x': 'x',
     'uvec': 'u', 'vvec': 'v', 'u0': 'u[0]', 'u1': 'u[1]', 'w0': 'v[0]', 'w1': 'v[1]', 'divu': 'div(u)', 'divv': 'div(v)',
     'Gu': 'grad(u)', 'Gv': 'grad(v)',
-    'Ainv': 'inv(A)', 'Jinv': 'inv(jac)', 'Hu': 'hess(u)', 'Hv': 'hess(v)', 'A': 'A', 'J': 'jac', 'Gg': 'grad(g)',
+    'B': 'B', 'Ainv': 'inv(A)', 'Jinv': 'inv(jac)', 'Hu': 'hess(u)', 'Hv': 'hess(v)', 'A': 'A', 'J': 'jac', 'Gg': 'grad(g)',
 }
 UNARY = {
     'neg': '(-(%s))', 'sin': 'sin(%s)', 'cos': 'cos(%s)', 'exp': 'exp(%s)', 'log': 'log(%s)', 'sqrt': 'sqrt(%s)',
@@ -53,6 +53,7 @@ def make_args(dim, kvs):
         'f': (lambda *X: 0.5 + 0.0 * X[0]), 'f2': (lambda *X: 0.25 + 0.0 * X[0]),
         'h': bspline.BSplineFunc(kvs, np.full(n, 0.5)),
         'g': (lambda *X: np.full(dim, 0.5)), 'A': (lambda *X: np.full((dim, dim), 0.5)),
+        'B': (lambda *X: np.full((dim + 1, dim), 0.5)),
         'c': 1.5,
     }
 
